@@ -10,6 +10,7 @@ import (
 	"github.com/bmeg/grip/timestamp"
 	"github.com/bmeg/grip/util"
 	"github.com/jmoiron/sqlx"
+	"github.com/lib/pq"
 )
 
 // Config describes the configuration for the sql driver.
@@ -137,7 +138,7 @@ type graphInfo struct {
 }
 
 func (db *GraphDB) getGraphInfo(graph string) (*graphInfo, error) {
-	q := fmt.Sprintf("SELECT * FROM graphs where graph_name='%s'", graph)
+	q := fmt.Sprintf("SELECT * FROM graphs where graph_name=%s", pq.QuoteLiteral(graph))
 	info := make(map[string]interface{})
 	err := db.db.QueryRowx(q).MapScan(info)
 	if err != nil {
@@ -170,7 +171,7 @@ func (db *GraphDB) DeleteGraph(graph string) error {
 		return fmt.Errorf("DeleteGraph: dropping edge table: %v", err)
 	}
 
-	stmt = fmt.Sprintf("DELETE FROM graphs where graph_name='%s'", graph)
+	stmt = fmt.Sprintf("DELETE FROM graphs where graph_name=%s", pq.QuoteLiteral(graph))
 	_, err = db.db.Exec(stmt)
 	if err != nil {
 		return fmt.Errorf("DeleteGraph: deleting row from graphs table: %v", err)
